@@ -8,12 +8,12 @@ ids = [p["id"] for p in props]
 
 # id -> (technique, level text, level note, design ref)
 CLAIMED = {
-    "C02": ("property-based differential testing: generated litmus programs run under loom vs brute-force axiomatic RC11 enumeration (must-appear set A)",
+    "C02": ("property-based differential + metamorphic testing: generated litmus programs run under loom vs brute-force axiomatic RC11 enumeration (must-appear set), thread-permutation symmetry of the explored outcome set, oracle cross-check against the interleaving reference on SeqCst-only programs",
             "Bounded generated-program exploration: for every generated program (<=4 threads, <=7 events) loom's explored outcome set must contain every outcome of an independent RC11 enumerator in its strongest reading. Shows absence of over-synchronisation on the generated programs only; failures shrink to a minimal replayable program.",
-            "Trusts the R-AX enumerator (harness/src/refax.rs); programs inside the classes of the recorded findings F7a/F7b are evaluated but a missing outcome there is attributed to the finding.", "4/C02"),
+            "Trusts the R-AX enumerator (harness/src/refax.rs). Outcomes that need SeqCst events or a failing CAS ordered against loom's single execution order are the recorded findings F12 / F7c (decided semantically per outcome); a missing outcome in class K7b is attributed to F7b.", "4/C02"),
     "C03": ("property-based differential testing: generated litmus programs run under loom vs brute-force axiomatic RC11 enumeration (may-appear set U)",
             "Bounded generated-program exploration: every outcome loom produces for a generated program must be allowed by the weakest reading (SeqCst accesses as AcqRel, C++20 release sequences) of an independent RC11 enumerator. Sound by construction (never flags what C11/C++20/RC11 disagree on); complete only within the generated bounds.",
-            "Trusts the R-AX enumerator; forbidden outcomes on programs in classes K7a/K7b (recorded findings F7a, F7b) are attributed to those findings.", "4/C03"),
+            "Trusts the R-AX enumerator; forbidden outcomes on programs in classes K7a/K7b are attributed to the recorded findings F7a/F7b only if they become allowed when the modification order of the K7 locations is left unconstrained.", "4/C03"),
     "C01": ("property-based differential testing: generated programs over all loom primitives run under loom vs an exhaustive interleaving reference (R-SC); set inclusion SC subset-of L plus trace validation",
             "Bounded generated-program exploration: for each generated program (<=4 threads, <=8 operations, ten families) every result some interleaving of the reference produces (values, deadlock, leak) must be produced by a loom iteration; for programs without atomics the sets must be equal and every iteration's op log must replay on the reference machines.",
             "Trusts R-SC (harness/src/refsc.rs). Programs inside the classes of recorded findings (F9 try-ops, F2/F2b channel emptiness, F5a-e park/unpark) are evaluated but a failure of the finding's kind is attributed to it.", "4/C01"),
@@ -23,10 +23,10 @@ CLAIMED = {
     "C06": ("property-based fault injection: generated programs with planted failures run in a child process, followed by a sentinel model in the same process; verdicts from the R-SC reference",
             "Generated (program, fault site, fault kind, context) cases: the failure must come out of `check` as a panic with the injected / documented message iff the reference says one is reachable (soundness; unconditional faults must fail), the process must survive, and a later model run in the same process must behave exactly as in a fresh process.",
             "Whether a failure that exists only in some schedule is found is left to C01/C05/C10; trusts R-SC reachability.", "4/C06"),
-    "C07": ("property-based testing: trace validation of every loom iteration on a reference lock machine + L == SC + race verdicts from reference vector clocks",
+    "C07": ("property-based testing: trace validation of every loom iteration on a reference lock machine + L == SC + race verdicts and stale-read (lost happens-before) validation from reference vector clocks",
             "Bounded generated-program exploration over <=2 mutexes and an rwlock with try-operations and cells inside/outside critical sections: exclusion, reader/writer compatibility, blocking, try_* exactness, protected values and hand-over happens-before (via loom's own race detector, both directions) are checked on every iteration.",
             "Trusts R-SC; F9 (try_* never observes a held lock across threads) and F11 (writes under read guards) attributed by class.", "4/C07"),
-    "C08": ("property-based testing: trace validation on reference wait/notify machines + L == SC incl. deadlock verdicts + race verdicts for notifier->waiter hand-over",
+    "C08": ("property-based testing: trace validation on reference wait/notify machines + L == SC incl. deadlock verdicts + race verdicts and stale-read (lost happens-before) validation for notifier->waiter hand-over",
             "Bounded generated-program exploration over Condvar, Notify, park/unpark and join (early/late/double notifications, 1-2 waiters): a lost wake-up shows as a spurious deadlock, an extra wake-up as an impossible outcome or invalid trace, a missing happens-before edge as a false race report.",
             "Trusts R-SC; the F5 family (park token conflated with internal wake-ups, park/unpark no scheduling points) attributed by class.", "4/C08"),
     "C09": ("property-based testing: trace validation on a reference FIFO queue + L == SC + leak/deadlock/race verdicts",
@@ -38,7 +38,7 @@ CLAIMED = {
     "C14": ("property-based testing with an instrumentation hook: reference depth-first step function + distinctness of decision paths",
             "For generated programs of all families the iteration hook reports every decision path; an independent reference computes the deepest open branch and checks that loom's next prefix is its legal successor, that exhaustion coincides with the end of the run, that no decision sequence repeats and that paths increase in depth-first rank order.",
             "Trusts the hook snapshot (feature `verif`); runs longer than the iteration cap are checked on their prefix.", "4/C14"),
-    "C15": ("property-based metamorphic testing across preemption bounds + independent preemption count by trace replay on R-SC",
+    "C15": ("property-based metamorphic testing across preemption bounds + independent preemption count by trace replay on R-SC (also for the part of a run resumed from a checkpoint)",
             "Each generated program is run unbounded and with bounds n, n+1 and >= #operations: per-execution preemption count (independent replay), subset, monotonicity and large-bound equality relations are checked.",
             "The unbounded run is the yardstick for subset relations (findings F2b, F13 concern its completeness and are attributed by class).", "4/C15"),
     "C10": ("property-based differential testing: leak reachability in the R-SC reference vs loom's leak reports",
